@@ -68,7 +68,7 @@ CHECKS = {
     "C15": dict(
         technique="TLC enumeration of the option grid with the gate-table model's prediction (Options.tla) replayed into the real parser; recorded outcomes validated by TLC against OptTrace.tla",
         text="Options.tla holds the gate table (except* -> 3.11; type parameter lists / type statement -> 3.12) and predicts for every program x verbose {F,T} x py_version {None,(3,8)..(3,13)} point: identical to the default, or a SyntaxError naming the required version (for programs rejected anyway but containing gated syntax: still rejected). Programs: gated features in several positions and combinations, look-alikes (type/match as names), plus samples of the C01 program space (valid and invalid) and harvested xonsh inputs. All grid points of all programs are run (stdout discarded) and validated by TLC.",
-        note="Need/validity per program come from CPython's own tree (TryStar, TypeAlias, type_params) when it parses, from the text otherwise. Interpreter 3.12 caps py_version.",
+        note="Also: TwoPass.tla (first pass without the diagnostic invalid_* rules, second pass only to raise) is model-checked and every recorded execution (diagnostic-rule invocations per pass, counted by wrapping the methods on the class) is validated by TLC against PassTrace.tla; a deviation is reported as model drift. Need/validity per program come from CPython's own tree (TryStar, TypeAlias, type_params) when it parses, from the text otherwise. Interpreter 3.12 caps py_version.",
         ref="5/C15"),
     "C16": dict(
         technique="TLC model check of the generator state machine (GenPipe.tla) + real generation runs recorded as traces and validated by TLC against GenTrace.tla",
